@@ -30,7 +30,7 @@ Requests (one per line; the answer is zero or more lines, then `.`):
   bootstrap connection.  `mon-model-c06` / `mon-model-c10` / `mon-model-boot <strict>` evaluate the
   same monitors on the MODEL's own trace since the last `bc-new` / `bs-new`.  `mon-r06` / `mon-r10`
   (`mon-model-r06` / `mon-model-r10`): the monitors for streams with re-entrant callbacks; the flat
-  monitors answer `skip` for a trace in which a callback ran.
+  monitors judge the longest flat prefix of a trace (`okp <n>` when that is not the whole trace).
 -/
 namespace Driver.BrokerClient
 open Driver Afkak.Frame
@@ -271,15 +271,28 @@ def bootFirstBad (strict : Bool) (m : Afkak.Monitor.C06.BSt) (n : Nat) :
 def fixTr {ε ω : Type} (tr : List (ε × List ω)) : List (ε × List ω) :=
   tr.reverse.map (fun t => (t.1, t.2.reverse))
 
-/-- the flat trace a recorded trace stands for, if no callback was registered or ran -/
-def flatTrace (tr : List (Afkak.BrokerClientR.EvR × List Afkak.BrokerClientR.ObR)) :
-    Option (List (Afkak.BrokerClient.Ev × List Afkak.BrokerClient.Ob)) :=
-  tr.mapM fun t => do
-    let e ← BC.flatOf t.1
-    -- an exception that escaped from a top-level call (`raise other:…`, never produced by the model) is not part
-    -- of the flat alphabet: it is dropped here and the flat monitors judge what the call did and did not do
-    if t.2.any (fun o => match o with | .hookBegin _ => true | _ => false) then none
-    else some (e, Afkak.BrokerClientR.plain t.2)
+/-- The longest prefix of a recorded trace that is a trace of the FLAT model: up to (not including) the first
+    event that registers a callback, switches on the stubborn / a synchronous endpoint, or during which a
+    callback ran.  Switching an environment option off that is off is a flat no-op and is dropped.  An exception
+    that escaped from a top-level call (`raise other:…`, never produced by the model) is not part of the flat
+    alphabet: it is dropped and the flat monitors judge what the call did and did not do.
+    Returns the prefix and whether it is the whole trace. -/
+def flatPrefix : List (Afkak.BrokerClientR.EvR × List Afkak.BrokerClientR.ObR) →
+    List (Afkak.BrokerClient.Ev × List Afkak.BrokerClient.Ob) × Bool
+  | [] => ([], true)
+  | t :: ts =>
+    if t.2.any (fun o => match o with | .hookBegin _ => true | _ => false) then ([], false)
+    else match t.1 with
+      | .stubborn false | .syncMode .none => flatPrefix ts
+      | e => match BC.flatOf e with
+        | none => ([], false)
+        | some fe => let r := flatPrefix ts; ((fe, Afkak.BrokerClientR.plain t.2) :: r.1, r.2)
+
+/-- `ok` = the whole trace was judged; `okp n` = only its flat prefix of `n` steps was (the flat monitors do not
+    apply beyond the first callback / stubborn / synchronous-endpoint event) -/
+def verdictP (full : Bool) (n : Nat) : Option Nat → List String
+  | none => if full then ["ok"] else [s!"okp {n}"]
+  | some i => [s!"fail {i}"]
 
 def bsStep (st : DSt) (e : Afkak.Bootstrap.Ev) : DSt × List String :=
   let r := Afkak.Bootstrap.step st.bs e
@@ -314,28 +327,27 @@ def step (st : DSt) (line : String) : DSt × List String :=
     | some o, (e, os) :: rest => ({ st with trR := (e, o :: os) :: rest }, [])
     | _, _ => ({ st with tBad := true }, ["bad-op"])
   | ["mon-c06"] =>
-    if st.tBad then (st, ["bad-op"]) else match flatTrace (fixTr st.trR) with
-      | none => (st, ["skip"])
-      | some tr => (st, verdict (Afkak.Monitor.C06.firstBad Afkak.Monitor.C06.MSt.init 0 tr))
+    if st.tBad then (st, ["bad-op"]) else
+      let p := flatPrefix (fixTr st.trR)
+      (st, verdictP p.2 p.1.length (Afkak.Monitor.C06.firstBad Afkak.Monitor.C06.MSt.init 0 p.1))
   | ["mon-c06r"] =>
-    if st.tBad then (st, ["bad-op"]) else match flatTrace (fixTr st.trR) with
-      | none => (st, ["skip"])
-      | some tr => (st, verdict (Afkak.Monitor.C06.rFirstBad Afkak.Monitor.C06.RSt.init 0 tr))
+    if st.tBad then (st, ["bad-op"]) else
+      let p := flatPrefix (fixTr st.trR)
+      (st, verdictP p.2 p.1.length (Afkak.Monitor.C06.rFirstBad Afkak.Monitor.C06.RSt.init 0 p.1))
   | ["mon-c10"] =>
-    if st.tBad then (st, ["bad-op"]) else match flatTrace (fixTr st.trR) with
-      | none => (st, ["skip"])
-      | some tr => (st, verdict (Afkak.Monitor.C10.firstBad (BC.policyOf st.tPolicy) (Afkak.Monitor.C10.MSt.init st.tHost st.tPort) 0 tr))
+    if st.tBad then (st, ["bad-op"]) else
+      let p := flatPrefix (fixTr st.trR)
+      (st, verdictP p.2 p.1.length (Afkak.Monitor.C10.firstBad (BC.policyOf st.tPolicy) (Afkak.Monitor.C10.MSt.init st.tHost st.tPort) 0 p.1))
   | ["mon-r06"] =>
     if st.tBad then (st, ["bad-op"]) else (st, verdict (Afkak.Monitor.C06.r06FirstBad Afkak.Monitor.C06.RM.init 0 (fixTr st.trR)))
   | ["mon-r10"] =>
     if st.tBad then (st, ["bad-op"]) else (st, verdict (Afkak.Monitor.C10.r10FirstBad Afkak.Monitor.C10.RM.init 0 (fixTr st.trR)))
   | ["mon-model-c06"] =>
-    if st.flatOk then (st, verdict (Afkak.Monitor.C06.firstBad Afkak.Monitor.C06.MSt.init 0 st.bcTr.reverse)) else (st, ["skip"])
+    (st, verdictP st.flatOk st.bcTr.length (Afkak.Monitor.C06.firstBad Afkak.Monitor.C06.MSt.init 0 st.bcTr.reverse))
   | ["mon-model-c06r"] =>
-    if st.flatOk then (st, verdict (Afkak.Monitor.C06.rFirstBad Afkak.Monitor.C06.RSt.init 0 st.bcTr.reverse)) else (st, ["skip"])
+    (st, verdictP st.flatOk st.bcTr.length (Afkak.Monitor.C06.rFirstBad Afkak.Monitor.C06.RSt.init 0 st.bcTr.reverse))
   | ["mon-model-c10"] =>
-    if st.flatOk then (st, verdict (Afkak.Monitor.C10.firstBad (BC.policyOf st.policy) (Afkak.Monitor.C10.MSt.init st.host st.port) 0 st.bcTr.reverse))
-    else (st, ["skip"])
+    (st, verdictP st.flatOk st.bcTr.length (Afkak.Monitor.C10.firstBad (BC.policyOf st.policy) (Afkak.Monitor.C10.MSt.init st.host st.port) 0 st.bcTr.reverse))
   | ["mon-model-r06"] => (st, verdict (Afkak.Monitor.C06.r06FirstBad Afkak.Monitor.C06.RM.init 0 st.bcTrR.reverse))
   | ["mon-model-r10"] => (st, verdict (Afkak.Monitor.C10.r10FirstBad Afkak.Monitor.C10.RM.init 0 st.bcTrR.reverse))
   | ["bt-new"] => ({ st with btr := [], tBad := false }, ["ok"])
@@ -363,7 +375,10 @@ def step (st : DSt) (line : String) : DSt × List String :=
         let same := fr.2 == Afkak.BrokerClientR.plain r.2 && fr.1 == r.1.core
         ({ st1 with bc := fr.1, bcTr := (fe, fr.2) :: st.bcTr },
          r.2.map BC.showObR ++ (if same then [] else ["flat-mismatch " ++ " ; ".intercalate (fr.2.map BC.showOb)]))
-      | none => ({ st1 with flatOk := false }, r.2.map BC.showObR)
+      | none =>
+        -- switching off an environment option that is off is a flat no-op
+        let noop := match e with | .stubborn false => true | .syncMode .none => true | _ => false
+        ({ st1 with flatOk := st.flatOk && noop }, r.2.map BC.showObR)
     | none => (st, ["bad-op"])
 
 end Driver.BrokerClient
